@@ -4,6 +4,7 @@ import (
 	"fmt"
 	"go/token"
 	"go/types"
+	"strconv"
 	"strings"
 
 	"golang.org/x/tools/go/ssa"
@@ -43,6 +44,11 @@ type run struct {
 	props    []string
 	dry      int
 	written  map[string]bool
+	// second dry run of a loop body: heap cells written (cellLog) and heaps written other than by a
+	// single-cell store (wholeLog)
+	cellLog     map[string][]cellWrite
+	wholeLog    map[string]bool
+	wholeBefore bool
 	depth    int
 	safe     bool
 	autoTransparent map[string]bool
@@ -459,6 +465,10 @@ func (n *node) setPV(name string, v *smt.Term) {
 	if n.fr.r.written != nil {
 		n.fr.r.written[name] = true
 	}
+	if r := n.fr.r; r.cellLog != nil {
+		r.wholeBefore = r.wholeLog[name]
+		r.wholeLog[name] = true
+	}
 }
 
 // heap access through a location
@@ -502,6 +512,17 @@ func (r *run) writeCell(n *node, heap string, idxs []*smt.Term, leaf *smt.Sort, 
 		return c.Store(a, idxs[k], rec(c.Select(a, idxs[k]), k+1))
 	}
 	n.setPV(heap, rec(h, 0))
+	if r.cellLog != nil {
+		// (setPV has just marked the heap as written wholesale: a cell write is more precise)
+		r.wholeLog[heap] = r.wholeBefore
+		r.cellLog[heap] = append(r.cellLog[heap], cellWrite{idxs: append([]*smt.Term(nil), idxs...), leaf: leaf})
+	}
+}
+
+// cellWrite is one heap cell written during a dry run of a loop body (see dryRunLoop).
+type cellWrite struct {
+	idxs []*smt.Term
+	leaf *smt.Sort
 }
 
 // load reads a value of type loc.T from loc.
@@ -1514,6 +1535,24 @@ func (r *run) newRef(cur *node) *smt.Term {
 	c := r.C()
 	a := cur.getPV("$alloc", smt.Int)
 	cur.setPV("$alloc", c.Op("+", nil, a, c.IntC(1)))
+	for _, g := range r.E.Ghosts {
+		if g.AllocInit == "" || g.Sort == nil || g.Sort.Kind != smt.KArray {
+			continue
+		}
+		var v *smt.Term
+		switch n, err := strconv.ParseInt(g.AllocInit, 10, 64); {
+		case err == nil && g.Sort.Elem == smt.Int:
+			v = c.IntC(n)
+		case g.AllocInit == "false" && g.Sort.Elem == smt.Bool:
+			v = c.False()
+		case g.AllocInit == "true" && g.Sort.Elem == smt.Bool:
+			v = c.True()
+		default:
+			r.fail("ghost %s: bad allocinit %q", g.Name, g.AllocInit)
+			continue
+		}
+		cur.setPV("G$"+g.Name, c.Store(cur.getPV("G$"+g.Name, g.Sort), a, v))
+	}
 	return a
 }
 
